@@ -8,9 +8,9 @@
                            accepts the genesis hash only with view 0          ([verify_qc])
      C02-highqc-sort       findHighestValidQC orders by the uint64 views themselves
                            (the tree subtracts after converting to int)       ([qc_sort_desc])
-   Absent (nil) signature objects: VerifyQuorumCert rejects them; VerifyTimeoutCert and
-   VerifyAggregateQC dereference them -> [Panic] (crash class owned by C10; the correspondence
-   accepts "reject" for these two so that guarding them does not raise an alarm here). *)
+   Absent (nil) signature objects: VerifyQuorumCert, VerifyTimeoutCert and VerifyAnyQC reject them;
+   VerifyAggregateQC called directly dereferences it -> [Panic] (crash class owned by C10; the
+   correspondence also accepts "reject" there so that guarding it does not raise an alarm here). *)
 From HS Require Import Base.Prelude Crypto.Symbolic Crypto.SchemeModel Quorum.QuorumModel.
 Close Scope Z_scope.
 
@@ -65,7 +65,7 @@ Section Verify.
   Definition verify_tc (t : tc) : result unit :=
     if N.eqb (tc_view t) 0%N then Ok tt
     else match tc_sig t with
-    | None => Panic                                                       (* tc.Signature().Participants() on nil *)
+    | None => Reject                                                      (* nil signature (guarded since 76e98b4) *)
     | Some s =>
         if Nat.ltb (part_len s) (qsize c) then Reject
         else ok_if (scheme_verify (c_replicas c) (c_scheme c) s (MView (tc_view t)))
@@ -133,10 +133,14 @@ Section Verify.
   Definition verify_any_qc_with (bqc : qc) (agg : option aggqc) (pick : result qc -> result qc) : result unit :=
     match (if c_aggqc c then agg else None) with
     | Some a =>
+        match aq_sig a with
+        | None => Reject                                                  (* aggQC.Sig() == nil guard *)
+        | Some _ =>
         match pick (verify_aggqc a) with
         | Ok hq => if negb (qc_equals bqc hq) then Reject else verify_qc bqc
         | Reject => Reject
         | Panic => Panic
+        end
         end
     | None => verify_qc bqc
     end.
